@@ -388,4 +388,3 @@ func setCostModels(env *EraEnv, t map[int][]int64) {
 		p.CostModels = cm
 	}
 }
-
